@@ -196,10 +196,16 @@ def run(c):
     cases = []
     for hs, bs, ps, mb in runs:
         emit = True
-        r = c.mc_holds("SshConfig_MC", mc_cfg(hs, bs, ps, mb, invariants=INVS + (["Emit"] if emit else [])),
-                       name="repaired walk %s x %s, %d blocks" % (hs, bs, mb), workers=4)
-        got = [tla.parse(cs[1]) for cs in r.printed("CASE")]      # [cfg, host, stable]; one single-line print per walk
-        m = re.search(r"Finished computing initial states: (\d+) distinct", r.out)
+        for nw in (4, 1):      # single-line prints survive several workers; if a line is ever damaged, once more with one
+            r = c.mc_holds("SshConfig_MC", mc_cfg(hs, bs, ps, mb, invariants=INVS + (["Emit"] if emit else [])),
+                           name="repaired walk %s x %s, %d blocks" % (hs, bs, mb), workers=nw)
+            try:
+                got = [tla.parse(cs[1]) for cs in r.printed("CASE")]      # [cfg, host, stable]; one single-line print per walk
+            except Exception:                                              # noqa
+                got = []
+            m = re.search(r"Finished computing initial states: (\d+) distinct", r.out)
+            if m and int(m.group(1)) == len(got):
+                break
         if not m or int(m.group(1)) != len(got):
             raise Machinery("expected one CASE per initial state: %s vs %d" % (m and m.group(1), len(got)))
         cases += got
@@ -254,12 +260,19 @@ def run(c):
     chunk = 3000
     for lo in range(0, len(records), chunk):
         part = records[lo:lo + chunk]
-        res, _ = c.trace("SshConfig_Trace", [{k: r[k] for k in ("cfg", "env", "gh", "lookups")} for r in part], TRACE_CFG, heap="8g", workers=4,
-                         env={"_JAVA_OPTIONS": "-Xss64m"})      # 12-block configs nest the fold deeply
+        for nw in (4, 1):
+            try:
+                res, _ = c.trace("SshConfig_Trace", [{k: r[k] for k in ("cfg", "env", "gh", "lookups")} for r in part], TRACE_CFG, heap="8g",
+                                 workers=nw, env={"_JAVA_OPTIONS": "-Xss64m"})      # 12-block configs nest the fold deeply
+                rows = [tla.parse(row[1]) for row in res["VERDICT"]]
+                if len(res["DONE"]) == len(part):
+                    break
+            except Exception:                 # noqa: a damaged print line, whatever it breaks
+                if nw == 1:
+                    raise
         if len(res["DONE"]) != len(part):
             raise Machinery("trace validation consumed %d of %d records" % (len(res["DONE"]), len(part)))
-        for row in res["VERDICT"]:
-            tid, line, bad = tla.parse(row[1])
+        for tid, line, bad in rows:
             rec = part[tid - 1]
             q_ = rec["lookups"][line - 1]
             for name, detail in bad:
